@@ -4,6 +4,8 @@ pub mod c14;
 pub mod c15;
 pub mod c11;
 pub mod c11_spec;
+pub mod c09;
+pub mod c10;
 pub mod c16;
 pub mod chain;
 pub mod c19;
